@@ -68,6 +68,7 @@ type c05Case struct {
 	SrvErr  bool   `json:"server_errors"`
 	Step    int    `json:"history_step"` // > 0: n-th verification on one and the same verifier instance (the verdict must not depend on earlier calls)
 	hist    *c05Hist
+	Blob    bool `json:"via_verify_blob"` // this step goes through VerifyBlob under the blob statement of the SAME verifier (named like the OCI one)
 	Token   bool `json:"timestamp_token"` // the envelope carries a valid RFC 3161 countersignature (policy lists no tsa store)
 	Anchor  int  `json:"trust_anchor"`    // which certificate of the chain the trust store holds: 0 root, 1 middle, 2 leaf
 	// observation
@@ -79,9 +80,11 @@ type c05Case struct {
 // c05Hist is one verifier instance used for a whole history of verifications, with a
 // validator whose scripted answer is changed between the steps.
 type c05Hist struct {
-	v      notation.Verifier
-	script *RevScript
-	calls  *[]RevCall
+	bv         notation.BlobVerifier // the same object as v, when the history's verifier also carries a blob document
+	blobAction string                // revocation action of the blob statement (differs from the OCI statement's)
+	v          notation.Verifier
+	script     *RevScript
+	calls      *[]RevCall
 }
 
 func runC05(a *Args) error {
@@ -212,6 +215,17 @@ func runC05(a *Args) error {
 			var script *RevScript
 			script, calls = NewRevScript(results, verr)
 			opts := verifier.VerifierOptions{OCITrustPolicy: doc}
+			if c.hist != nil && c.hist.blobAction != "" {
+				// a blob statement with the SAME NAME as the OCI statement ("p") but another revocation action
+				bact := map[string]trustpolicy.ValidationAction{"Enforce": trustpolicy.ActionEnforce, "Log": trustpolicy.ActionLog, "Skip": trustpolicy.ActionSkip}[c.hist.blobAction]
+				opts.BlobTrustPolicy = &trustpolicy.BlobDocument{Version: "1.0", TrustPolicies: []trustpolicy.BlobTrustPolicy{{
+					Name: "p",
+					SignatureVerification: trustpolicy.SignatureVerification{VerificationLevel: "strict",
+						Override: map[trustpolicy.ValidationType]trustpolicy.ValidationAction{trustpolicy.TypeRevocation: bact}},
+					TrustStores:       []string{fmt.Sprintf("%s:a%d", storeType, c.Anchor)},
+					TrustedIdentities: []string{"*"},
+				}}}
+			}
 			switch c.Val {
 			case 1:
 				opts.RevocationCodeSigningValidator = script.Validator()
@@ -228,6 +242,9 @@ func runC05(a *Args) error {
 			v = nv
 			if c.hist != nil {
 				c.hist.v, c.hist.script, c.hist.calls = nv, script, calls
+				if bv, ok := notation.Verifier(nv).(notation.BlobVerifier); ok && c.hist.blobAction != "" {
+					c.hist.bv = bv
+				}
 			}
 		}
 		envBytes := e.env[c.Format+"|"+string(scheme)]
@@ -238,7 +255,16 @@ func runC05(a *Args) error {
 				c.Token = false
 			}
 		}
-		outcome, verr2 := v.Verify(context.Background(), e.desc, envBytes, notation.VerifierVerifyOptions{ArtifactReference: TestRef, SignatureMediaType: c.Format})
+		var outcome *notation.VerificationOutcome
+		var verr2 error
+		if c.Blob && c.hist != nil && c.hist.bv != nil {
+			// the envelope is presented as a blob signature: the descriptor generator answers with the signed descriptor
+			gen := func(digest.Algorithm) (ocispec.Descriptor, error) { return e.desc, nil }
+			outcome, verr2 = c.hist.bv.VerifyBlob(context.Background(), gen, envBytes, notation.BlobVerifierVerifyOptions{SignatureMediaType: c.Format, TrustPolicyName: "p"})
+		} else {
+			c.Blob = false
+			outcome, verr2 = v.Verify(context.Background(), e.desc, envBytes, notation.VerifierVerifyOptions{ArtifactReference: TestRef, SignatureMediaType: c.Format})
+		}
 		// observation
 		var callTerms []string
 		for _, k := range *calls {
@@ -280,11 +306,12 @@ func runC05(a *Args) error {
 		obs := CApp("mk_obs", CList(callTerms), resTerm, CBool(c.Rejected))
 		term := CApp("mk_case", CN(my), in, obs)
 		nontriv := c.Action != "Skip" && (c.VErr || hasNonOK(c.Vec))
-		key := fmt.Sprintf("%v|%v|%v|%v|%v|%v|%v|%v|%v|%v|%v", c.Vec, c.Action, c.Val, c.SA, c.Format, c.VErr, c.Level, c.Anchor, c.Step, c.Token, c.VErrRes)
+		key := fmt.Sprintf("%v|%v|%v|%v|%v|%v|%v|%v|%v|%v|%v|%v", c.Vec, c.Action, c.Val, c.SA, c.Format, c.VErr, c.Level, c.Anchor, c.Step, c.Token, c.VErrRes, c.Blob)
 		w.Add(my, term, c, key, nontriv)
 		w.Count("chain_len", fmt.Sprint(c.N))
 		w.Count("trust_anchor", []string{"root", "middle", "leaf"}[c.Anchor])
 		w.Count("timestamp_token", fmt.Sprint(c.Token))
+		w.Count("via_verify_blob", fmt.Sprint(c.Blob))
 		w.Count("action", c.Action)
 		w.Count("validators", fmt.Sprint(c.Val))
 		w.Count("obs_result", strings.SplitN(c.Result, ":", 2)[0])
@@ -413,9 +440,16 @@ func runC05(a *Args) error {
 		h := &c05Hist{}
 		base := c05Case{N: n, Format: Pick(rng, formats), SA: rng.Bool(), Action: Pick(rng, []string{"Enforce", "Enforce", "Log"}), Level: Pick(rng, levels), Val: 1 + rng.Intn(3), Anchor: rng.Intn(3)}
 		steps := 2 + rng.Intn(3)
+		if k%2 == 0 {
+			// the verifier also holds a blob document whose statement has the same name and ANOTHER revocation action
+			h.blobAction = map[string]string{"Enforce": "Skip", "Log": "Enforce"}[base.Action]
+		}
 		for st := 1; st <= steps; st++ {
 			c := base
 			c.hist, c.Step = h, st
+			if h.blobAction != "" && st%2 == 0 {
+				c.Blob, c.Action = true, h.blobAction
+			}
 			c.Vec = make([]int, n)
 			switch {
 			case st == 1 || rng.Chance(1, 4):
